@@ -88,7 +88,7 @@ func leanStr(s string) string { return strconv.Quote(s) }
 
 func parseFile(repo, rel string) (*ast.File, error) {
 	fset := token.NewFileSet()
-	return parser.ParseFile(fset, filepath.Join(repo, rel), nil, 0)
+	return parser.ParseFile(fset, effSourcePath(filepath.Join(repo, rel)), nil, 0)
 }
 
 // stringConsts collects `const X = "..."` declarations of a file.
@@ -213,7 +213,7 @@ func findFunc(f *ast.File, name string) *ast.FuncDecl {
 // callMasks extracts the literal call-flag expressions of the contract-call path. A mask that is
 // not found is reported as 255 (which no 4-bit flag set equals, so the Lean obligations break).
 func callMasks(repo string) (map[string]int, error) {
-	res := map[string]int{"loadTokenReq": 255, "safeDropMask": 0, "safeDropCall": 0, "safeDropToken": 0, "callViaInternal": 0, "tokenViaInternal": 0, "childIsAnd": 0, "loadScriptMask": 255, "safeDefMask": 255, "callFromNativeFlags": 255}
+	res := map[string]int{"callerFromContextSince": 255, "loadTokenReq": 255, "safeDropMask": 0, "safeDropCall": 0, "safeDropToken": 0, "callViaInternal": 0, "tokenViaInternal": 0, "childIsAnd": 0, "loadScriptMask": 255, "safeDefMask": 255, "callFromNativeFlags": 255}
 	f, err := parseFile(repo, "pkg/core/interop/contract/call.go")
 	if err != nil {
 		return nil, err
@@ -266,6 +266,30 @@ func callMasks(repo string) (map[string]int, error) {
 			})
 		}
 		return found
+	}
+	// callInternal: `if ic.IsHardforkEnabled(config.HFx) { mfst = ctx.GetManifest() } else { … ic.GetContract(…) … }`
+	if fd := findFunc(f, "callInternal"); fd != nil {
+		ast.Inspect(fd.Body, func(n ast.Node) bool {
+			is, ok := n.(*ast.IfStmt)
+			if !ok || is.Else == nil || len(is.Body.List) != 1 {
+				return true
+			}
+			ce, ok := is.Cond.(*ast.CallExpr)
+			if !ok || len(ce.Args) != 1 {
+				return true
+			}
+			if sel, ok := ce.Fun.(*ast.SelectorExpr); !ok || sel.Sel.Name != "IsHardforkEnabled" {
+				return true
+			}
+			as, ok := is.Body.List[0].(*ast.AssignStmt)
+			if !ok || len(as.Rhs) != 1 || !mentions(as.Rhs[0], "GetManifest") || !mentionsNode(is.Else, "GetContract") {
+				return true
+			}
+			if idx, ok := hfByName(ce.Args[0]); ok {
+				res["callerFromContextSince"] = idx
+			}
+			return true
+		})
 	}
 	res["safeDropMask"] = safeDropIn("callInternal")
 	res["safeDropCall"] = safeDropIn("Call")
@@ -368,7 +392,9 @@ func onlyAnd(e ast.Expr) bool {
 	return true
 }
 
-func mentions(e ast.Expr, name string) bool {
+func mentions(e ast.Expr, name string) bool { return mentionsNode(e, name) }
+
+func mentionsNode(e ast.Node, name string) bool {
 	found := false
 	ast.Inspect(e, func(n ast.Node) bool {
 		if id, ok := n.(*ast.Ident); ok && id.Name == name {
@@ -434,6 +460,7 @@ func genInterops(repo string) (string, error) {
 	fmt.Fprintf(&b, "/-- contract/call.go callInternal (shared by System.Contract.Call and CALLT): `if md.Safe { f &^= (…) }` (0: none). -/\ndef safeDropMask : Nat := %d\n", m["safeDropMask"])
 	fmt.Fprintf(&b, "/-- the same pattern inside Call (System.Contract.Call only) / LoadToken (CALLT only), 0: none. -/\ndef safeDropCallOnly : Nat := %d\ndef safeDropTokenOnly : Nat := %d\n", m["safeDropCall"], m["safeDropToken"])
 	fmt.Fprintf(&b, "/-- Call / LoadToken hand over to callInternal. -/\ndef callViaInternal : Bool := %v\ndef tokenViaInternal : Bool := %v\n", m["callViaInternal"] == 1, m["tokenViaInternal"] == 1)
+	fmt.Fprintf(&b, "/-- contract/call.go callInternal: index of the hardfork from which the caller's manifest is taken from the executing\n    context (`ctx.GetManifest()`) instead of ContractManagement's storage (`ic.GetContract`). -/\ndef callerManifestFromContextSince : Nat := %d\n", m["callerFromContextSince"])
 	fmt.Fprintf(&b, "/-- contract/call.go callExFromNative contains `f = ic.VM.Context().GetCallFlags() & f`. -/\ndef childIsAnd : Bool := %v\n", m["childIsAnd"] == 1)
 	fmt.Fprintf(&b, "/-- contract/call.go CallFromNative: flags passed to callExFromNative. -/\ndef callFromNativeFlags : Nat := %d\n", m["callFromNativeFlags"])
 	fmt.Fprintf(&b, "/-- runtime/engine.go LoadScript: `fs = ctx.GetCallFlags() & … & fs`, the constant part. -/\ndef loadScriptMask : Nat := %d\n", m["loadScriptMask"])
